@@ -433,10 +433,41 @@ def _add_eff(target, ctx, e, timing=None):
         fn(*args, forall=forall)
 
 
+class _AnyTable:
+    """table of an interpreted function that answers every argument tuple with a fixed value of the return type
+    (the kind computation only needs the Simplifier / LinearChecker to get *some* value when they fold constants)"""
+
+    def __init__(self, name, ctx):
+        self.name, self.ctx = name, ctx
+
+    def __contains__(self, key):
+        return True
+
+    def __getitem__(self, key):
+        rt = next(f for f in self.ctx.funs.values() if f.name == self.name).return_type
+        if rt.is_bool_type():
+            return True
+        if rt.is_int_type() or rt.is_real_type():
+            v = rt.lower_bound if rt.lower_bound is not None else (rt.upper_bound if rt.upper_bound is not None else 1)
+            return int(v) if rt.is_int_type() else Fraction(v)
+        raise KeyError(key)
+
+
+class _FunTables(dict):
+    def __init__(self, ctx):
+        super().__init__()
+        self.ctx = ctx
+
+    def setdefault(self, name, default=None):
+        return _AnyTable(name, self.ctx)
+
+
 def build(payload, with_facts=False):
     """payload (kp …) -> real Problem (raises whatever the library raises on rejected input)"""
     base = [([x[0]] if (isinstance(x, list) and x and x[0] == "traj") else x) for x in payload[1]]
-    P, ctx = upp.build_problem(base)
+    ctx = upx.Ctx([(n, None if f == "_" else f) for n, f in upp.get(base, "types")])
+    ctx.fun_tables = _FunTables(ctx)
+    P, ctx = upp.build_problem(base, ctx)
     for t in upp.get(payload[1], "traj"):
         e = ctx.expr(t)
         try:
@@ -766,7 +797,9 @@ INTS = ["x", "y", "xb", "xq", "xl"]
 REALS = ["z", "zb", "zq"]
 OBJF = ["at", "own", "loc"]
 TRUE = ["b", "T"]
-FEATURE_OPS = ["not", "or", "implies", "eq-num", "eq-obj", "exists", "forall", "iff", "nested"]
+FEATURE_OPS = ["not", "or", "implies", "eq-num", "eq-obj", "exists", "forall", "iff", "nested"] * 3 + ["ifun"]
+IFUN_INT = ["ifun", ["g", INT, [INT]]]
+IFUN_BOOL = ["ifun", ["gb", "bool", [INT]]]
 POSITIONS = ["ipre", "ieffcond", "iforallcond", "dcond-start", "dcond-overall", "dcond-inter", "dcond-ext", "deffcond",
              "deffcond-inter", "goal", "tgoal", "traj-always", "traj-sometime", "oversub", "toversub", "ppre", "epre", "eeffcond",
              "teffcond"]
@@ -832,6 +865,10 @@ class KGen:
         a, b = self.atom(fl, params, scope), self.atom(fl, params, scope)
         if op == "not":
             e = ["not", a]
+        elif op == "ifun":
+            nums = [n for n in fl if n in INTS]
+            arg = self.fexp(r.choice(nums), params, scope) if nums and r.random() < 0.7 else ["i", str(r.choice([0, 2]))]
+            e = IFUN_BOOL + [arg] if r.random() < 0.5 else ["le", IFUN_INT + [arg], ["i", "3"]]
         elif op == "or":
             e = ["or", a, b]
         elif op == "implies":
@@ -864,6 +901,10 @@ class KGen:
         """a value for an assignment to fluent `name` (constant unless `dependent`)"""
         r = self.r
         ty = POOL[name][1]
+        if dependent and r.random() < 0.12 and (ty == "bool" or ty[0] in ("int", "real")):
+            nums = [n for n in fl if n in INTS]
+            arg = self.fexp(r.choice(nums), params, scope) if nums and r.random() < 0.6 else ["i", "1"]
+            return IFUN_BOOL + [arg] if ty == "bool" else IFUN_INT + [arg]
         if ty == "bool":
             if dependent:
                 return self.atom([n for n in fl if n in BOOLS], params, scope)
@@ -977,11 +1018,22 @@ class KGen:
             plants.append((r.choice(FEATURE_OPS), r.choice(POSITIONS)))
         eff_plants = []
         for _ in range(r.choice([0, 0, 1, 1, 2])):
-            eff_plants.append((r.choice(["conditional", "forall", "increase", "decrease", "dependent", "cont-inc", "cont-dec",
-                                         "dependent-inc", "forall-conditional"]),
+            eff_plants.append((r.choice(["conditional", "forall", "increase", "decrease", "dependent", "dependent", "dependent",
+                                         "cont-inc", "cont-dec", "dependent-inc", "forall-conditional"]),
                                r.choice(["iaction", "daction-start", "daction-end", "daction-inter", "event", "timed", "process"])))
         pk = ["user"] * 6 + ["bool", "bint", "uint", "real"]
         need = lambda pos: [p for p in plants if p[1] in pos]
+        dep_target = {}
+        for j, (kind, w) in enumerate(eff_plants):
+            if kind in ("dependent", "dependent-inc"):
+                cat = r.choice(["bool", "num", "obj"]) if kind == "dependent" else "num"
+                pair = {"bool": r.choice([("b0", "b1"), ("bq", "b1"), ("b1", "bs")]),
+                        "num": r.choice([("x", "y"), ("z", "x"), ("xq", "xb"), ("zb", "z"), ("y", "xl")]),
+                        "obj": r.choice([("at", "own"), ("own", "at")])}[cat]
+                for n in pair:
+                    if n not in fl:
+                        fl.append(n)
+                dep_target[j] = pair[0]
 
         def conds_for(pos_names, params, n_plain):
             out = [self.plain(fl, params) for _ in range(n_plain)]
@@ -996,7 +1048,7 @@ class KGen:
                 e = self.eff(fl, params)
                 if e:
                     out.append(e)
-            for kind, w in eff_plants:
+            for j, (kind, w) in enumerate(eff_plants):
                 if w != where:
                     continue
                 e = None
@@ -1009,9 +1061,9 @@ class KGen:
                 elif kind in ("increase", "decrease"):
                     e = self.eff(fl, params, kind=kind)
                 elif kind == "dependent":
-                    e = self.eff(fl, params, dependent=True)
+                    e = self.eff(fl, params, dependent=True, target=dep_target.get(j))
                 elif kind == "dependent-inc":
-                    e = self.eff(fl, params, kind=r.choice(["increase", "decrease"]), dependent=True)
+                    e = self.eff(fl, params, kind=r.choice(["increase", "decrease"]), dependent=True, target=dep_target.get(j))
                 if e:
                     out.append(e)
             for op, pos in plants:
@@ -1061,6 +1113,8 @@ class KGen:
                 hi = ["i", "9"]
             elif k < 0.25:
                 lo = hi = ["r", "5/2"]
+            elif k < 0.29:
+                lo = hi = IFUN_INT + [["i", "2"]]
             elif k < 0.55 and nums:
                 g = self.fexp(r.choice(nums), ps)
                 lo = hi = g if r.random() < 0.5 else ["plus", g, ["i", "1"]]
@@ -1125,7 +1179,7 @@ class KGen:
             for a in acts:
                 if r.random() < 0.8:
                     c = r.choice([["i", "1"], ["i", "3"], ["r", "1/2"]])
-                    if nums and r.random() < 0.4:
+                    if nums and r.random() < 0.6:
                         g = self.fexp(r.choice(nums), a[2])
                         c = g if r.random() < 0.5 else ["plus", g, ["i", "1"]]
                     costs.append([a[1], c])
@@ -1275,8 +1329,113 @@ STATEMENT_FEATURES = {
 BASIC = {"FLAT_TYPING", "HIERARCHICAL_TYPING", "INT_FLUENTS", "REAL_FLUENTS", "OBJECT_FLUENTS", "BOUNDED_TYPES"}
 
 
+def special_typing(rng):
+    """a subtype (or a flat type) that occurs in exactly ONE position of an otherwise untyped problem"""
+    t = U(rng.choice(["S", "S", "U", "T"]))
+    where = rng.choice(["object", "fluent-type", "fluent-param", "iaction-param", "daction-param", "process-param", "event-param",
+                        "forall-iaction", "forall-daction", "forall-event", "forall-timed"])
+    b = POOL["b0"]
+    fluents = [[b, ["b", "F"]]]
+    set_b = ["eff", "assign", ["fl", b], ["b", "T"], TRUE, []]
+    objects, acts, dacts, procs, evs, teffs = [], [], [], [], [], []
+    super_t = U("T") if t == U("S") else t           # the fluent parameter is declared on the supertype
+    bq = ["bqq", "bool", [super_t]]
+    fa = ["eff", "assign", ["fl", bq, ["v", "w", t]], ["b", "T"], TRUE, [["w", t]]]
+    if where == "object":
+        objects = [["o1", t[1]]]
+    elif where == "fluent-type":
+        fluents.append([["loc2", t, []], "_"])
+    elif where == "fluent-param":
+        fluents.append([["bp", "bool", [t]], ["b", "F"]])
+    elif where == "iaction-param":
+        acts = [["action", "a0", [["p0", t]], ["pre"], ["effs", set_b]]]
+    elif where == "daction-param":
+        dacts = [["daction", "d0", [["p0", t]], ["dur", ["i", "1"], ["i", "1"]], ["conds"], ["effs", [["at", "end", "0"], set_b]], ["ceffs"], ["sim"]]]
+    elif where == "process-param":
+        fluents.append([POOL["z"], ["i", "0"]])
+        procs = [["process", "pr0", [["p0", t]], ["pre"], ["ceffs", ["ceff", "increase", ["fl", POOL["z"]], ["i", "1"]]]]]
+    elif where == "event-param":
+        evs = [["event", "ev0", [["p0", t]], ["pre", ["fl", b]], ["effs", set_b]]]
+    else:
+        fluents.append([bq, ["b", "F"]])
+        if where == "forall-iaction":
+            acts = [["action", "a0", [], ["pre"], ["effs", fa]]]
+        elif where == "forall-daction":
+            dacts = [["daction", "d0", [], ["dur", ["i", "1"], ["i", "1"]], ["conds"], ["effs", [["at", rng.choice(["start", "end"]), "0"], fa]], ["ceffs"], ["sim"]]]
+        elif where == "forall-event":
+            evs = [["event", "ev0", [], ["pre", ["fl", b]], ["effs", fa]]]
+        else:
+            teffs = [[["at", "gstart", "2"], fa]]
+    base = ["problem", "p", ["types"] + TYPES, ["objects"] + objects, ["fluents"] + fluents, ["init"], ["actions"] + acts,
+            ["goals"], ["traj"], ["metrics"]]
+    return ["kp", base, ["dactions"] + dacts, ["processes"] + procs, ["events"] + evs, ["teffs"] + teffs, ["tgoals"], ["xmetrics"],
+            ["flags", "F", "F"], ["sim"]]
+
+
+def special_unused(rng):
+    """a numeric fluent that occurs in a duration (or an action cost) and in exactly ONE other read position"""
+    n = POOL[rng.choice(["x", "xb", "z", "zb"])]
+    b = POOL["b0"]
+    fn, fb = ["fl", n], ["fl", b]
+    cmpn = [rng.choice(["le", "lt"]), fn, ["i", "2"]]
+    fluents = [[b, ["b", "F"]], [n, ["i", "0"]]]
+    set_b = ["eff", "assign", fb, ["b", "T"], TRUE, []]
+    cond_b = ["eff", "assign", fb, ["b", "T"], cmpn, []]
+    acts, dconds, deffs, procs, evs, teffs, tgoals, goals, traj, metrics, xm = [], [], [[["at", "end", "0"], set_b]], [], [], [], [], [], [], [], []
+    where = rng.choice(["ipre", "ieffcond", "dcond", "deffcond", "ppre", "epre", "eeffcond", "teffcond", "tgoal", "goal", "traj",
+                        "oversub", "toversub", "final", "ivalue", "none"])
+    if where == "ipre":
+        acts = [["action", "a0", [], ["pre", cmpn], ["effs", set_b]]]
+    elif where == "ieffcond":
+        acts = [["action", "a0", [], ["pre"], ["effs", cond_b]]]
+    elif where == "ivalue":
+        acts = [["action", "a0", [], ["pre"], ["effs", ["eff", "assign", fb, cmpn, TRUE, []]]]]
+    elif where == "dcond":
+        dconds = [[["iv", "F", "F", ["at", "start", "0"], ["at", "end", "0"]], cmpn]]
+    elif where == "deffcond":
+        deffs = [[["at", "end", "0"], cond_b]]
+    elif where == "ppre":
+        zz = POOL["zq"]
+        fluents.append([zz, ["i", "0"]])
+        procs = [["process", "pr0", [], ["pre", cmpn], ["ceffs", ["ceff", "increase", ["fl", zz, ["o", "s1", "S"]], ["i", "1"]]]]]
+    elif where == "epre":
+        evs = [["event", "ev0", [], ["pre", cmpn], ["effs", set_b]]]
+    elif where == "eeffcond":
+        evs = [["event", "ev0", [], ["pre", fb], ["effs", cond_b]]]
+    elif where == "teffcond":
+        teffs = [[["at", "gstart", "2"], cond_b]]
+    elif where == "tgoal":
+        tgoals = [[["iv", "F", "F", ["at", "gstart", "1"], ["at", "gstart", "3"]], cmpn]]
+    elif where == "goal":
+        goals = [cmpn]
+    elif where == "traj":
+        traj = [[rng.choice(["always", "sometime"]), cmpn]]
+    elif where == "oversub":
+        metrics = [["oversub", [[cmpn, "2"]]]]
+    elif where == "toversub":
+        xm = [["toversub", [[["iv", "F", "F", ["at", "gstart", "1"], ["at", "gstart", "3"]], cmpn, "3/2"]]]]
+    elif where == "final":
+        metrics = [[rng.choice(["min-final", "max-final"]), fn]]
+    dur = ["dur", fn, fn if rng.random() < 0.6 else ["plus", fn, ["i", "1"]]]
+    if rng.random() < 0.25 and not metrics:
+        # the other occurrence is in an action cost instead of a duration
+        dur = ["dur", ["i", "2"], ["i", "2"]]
+        acts = acts or [["action", "a0", [], ["pre"], ["effs", set_b]]]
+        metrics = [["min-action-costs", [["a0", ["plus", fn, ["i", "1"]]]], "_"]]
+    dacts = [["daction", "d0", [], dur, ["conds"] + dconds, ["effs"] + deffs, ["ceffs"], ["sim"]]]
+    base = ["problem", "p", ["types"] + TYPES, ["objects", ["s1", "S"]], ["fluents"] + fluents, ["init"], ["actions"] + acts,
+            ["goals"] + goals, ["traj"] + traj, ["metrics"] + metrics]
+    return ["kp", base, ["dactions"] + dacts, ["processes"] + procs, ["events"] + evs, ["teffs"] + teffs, ["tgoals"] + tgoals,
+            ["xmetrics"] + xm, ["flags", "F", "F"], ["sim"]]
+
+
 def special(rng):
-    """hand-shaped families around the corners of the static/unused-fluent analysis"""
+    """hand-shaped families around the corners of the static/unused-fluent analysis and of typing"""
+    k = rng.random()
+    if k < 0.3:
+        return special_typing(rng)
+    if k < 0.85:
+        return special_unused(rng)
     k = rng.randrange(6)
     n = POOL[rng.choice(["x", "xb", "z", "zb"])]
     b = POOL["b0"]
@@ -1325,12 +1484,12 @@ def corpus_cases():
 
 
 def cases(rng, tier):
-    n = 350 if tier == "quick" else 9000
+    n = 300 if tier == "quick" else 9000
     for c in corpus_cases():
         yield c
     g = KGen(rng)
     for i in range(n):
-        raw = special(rng) if rng.random() < 0.06 else g.problem()
+        raw = special(rng) if rng.random() < 0.2 else g.problem()
         p = sanitize(raw)
         if p is None:
             continue
@@ -1375,10 +1534,15 @@ def oracle(payload):
     miss = sorted(f for f in used if f not in k.features)
     if miss:
         return "kind lacks used feature(s): " + ", ".join(f"{f} ({used[f]})" for f in miss)
+    # the stated consequence, through the real `<=`: an engine whose supported kind contains the computed kind (here: equals
+    # it) has declared each used feature, i.e. the feature survives the version filtering that `<=` applies
     from unified_planning.model import ProblemKind
     sup = ProblemKind(set(k.features), version=k.version)
-    if not (k <= sup) or any(not hasattr(sup, "features") or f not in sup.features for f in used):
-        return "a supported kind containing the computed kind lacks a used feature"
+    if not (k <= sup):
+        return "the computed kind is not <= itself"
+    lost = sorted(f for f in used if not (ProblemKind({f}, version=k.version) <= ProblemKind(set(sup.features), version=sup.version)))
+    if lost:
+        return "a supported kind containing the computed kind does not declare: " + ", ".join(lost)
     return None
 
 
